@@ -8,8 +8,8 @@ step_attempt, step_extract_timestep_state, interp_skip, interp_beyond_t1, interp
 `solve_adaptive_save_at` (`advance` + `scan`), `solve_adaptive_terminal_values`) and of the python
 loop of `probdiffeq/util/test_util.solve_adaptive_save_every_step`.
 
-Solver, error estimator and controller are *parameters* with the signature of
-`solver_protocols.Solver` / `controllers.Control`; the solver state carries only what the state
+LSolver, error estimator and controller are *parameters* with the signature of
+`solver_protocols.LSolver` / `controllers.Control`; the solver state carries only what the state
 machine reads (`t`), what the property talks about (`num_steps`) and an opaque payload id (`tag`).
 `lax.while_loop`s take fuel and return `none` when it runs out (never a silently truncated run).
 
@@ -19,42 +19,42 @@ to the protocol objects; the trace never influences a decision.
 namespace Pdq
 
 /-- what the state machine sees of a solver state (`ProbabilisticSolution`): time, step counter, payload id -/
-structure SolState (α : Type) where
+structure LSolState (α : Type) where
   t : α
   numSteps : Nat
   tag : Nat
 
 /-- result of `interpolate_fwd` / `interpolate_fwd_at_t1`: `(solution, InterpResult(step_from, interp_from))` -/
 structure InterpRes (α : Type) where
-  sol : SolState α
-  stepFrom : SolState α
-  interpFrom : SolState α
+  sol : LSolState α
+  stepFrom : LSolState α
+  interpFrom : LSolState α
 
-/-- `solver_protocols.Solver` -/
-structure Solver (α : Type) where
-  init : α → Nat → SolState α
-  step : SolState α → α → SolState α
+/-- `solver_protocols.LSolver` -/
+structure LSolver (α : Type) where
+  init : α → Nat → LSolState α
+  step : LSolState α → α → LSolState α
   /-- arguments: `t`, `interp_from`, `interp_to` -/
-  interpFwd : α → SolState α → SolState α → InterpRes α
+  interpFwd : α → LSolState α → LSolState α → InterpRes α
   /-- arguments: `t`, `interp_from`, `interp_to` -/
-  interpAtT1 : α → SolState α → SolState α → InterpRes α
+  interpAtT1 : α → LSolState α → LSolState α → InterpRes α
 
 /-- error estimator: `init_error()`, `estimate_error_norm(error_state, previous, proposed, dt)`
 returning `(error_power, error_state)`; the error state is an opaque payload id. -/
 structure Est (α : Type) where
   init : Nat
-  estimate : Nat → SolState α → SolState α → α → α × Nat
+  estimate : Nat → LSolState α → LSolState α → α → α × Nat
 
 /-- one call of `step_attempt`, as seen by the protocol objects -/
 structure AttemptRec (α σ : Type) where
   /-- the checkpoint the rejection loop is heading for -/
   t1 : α
   /-- `state.step_from` (argument of `solver.step`) -/
-  src : SolState α
+  src : LSolState α
   /-- the step size actually attempted (after clipping) -/
   dt : α
   /-- result of `solver.step` -/
-  proposed : SolState α
+  proposed : LSolState α
   /-- `error_power` returned by the estimator; the attempt is accepted iff `¬ ep < 1` -/
   ep : α
   /-- proposal returned by the controller -/
@@ -68,15 +68,15 @@ inductive Event (α σ : Type) where
   | attempt (a : AttemptRec α σ)
   /-- branch taken by `RejectionLoop.loop`: 0 = skip, 1 = `interpolate_fwd`, 2 = `interpolate_fwd_at_t1`,
   with the `interp_from` / `interp_to` arguments -/
-  | interp (branch : Nat) (t1 : α) (iFrom iTo : SolState α)
+  | interp (branch : Nat) (t1 : α) (iFrom iTo : LSolState α)
   /-- a solution handed back to the caller for checkpoint `t1` -/
-  | output (t1 : α) (s : SolState α)
+  | output (t1 : α) (s : LSolState α)
 
 /-- `TimeStepState` (+ ghost trace) -/
 structure TimeStepState (α σ : Type) where
   dt : α
-  stepFrom : SolState α
-  interpFrom : SolState α
+  stepFrom : LSolState α
+  interpFrom : LSolState α
   control : σ
   errorStepFrom : Nat
   trace : List (Event α σ)
@@ -86,15 +86,15 @@ structure RejState (α σ : Type) where
   dt : α
   acceptanceFactorProposed : α
   control : σ
-  proposed : SolState α
-  stepFrom : SolState α
+  proposed : LSolState α
+  stepFrom : LSolState α
   errorStepFrom : Nat
   errorProposed : Nat
   trace : List (Event α σ)
 
 /-- everything `RejectionLoop.__init__` receives, plus the literal `acceptance_factor_init` -/
 structure Cfg (α σ : Type) where
-  solver : Solver α
+  solver : LSolver α
   est : Est α
   ctl : Ctl α σ
   clip : Bool
@@ -105,12 +105,12 @@ section
 variable {α σ : Type} [Add α] [Sub α] [LT α] [DecidableLT α] [Min α] [One α]
 
 /-- `RejectionLoop.init` -/
-def Cfg.init (cfg : Cfg α σ) (s0 : SolState α) (dt : α) : TimeStepState α σ :=
+def Cfg.init (cfg : Cfg α σ) (s0 : LSolState α) (dt : α) : TimeStepState α σ :=
   { dt := dt, stepFrom := s0, interpFrom := s0, control := cfg.ctl.init dt,
     errorStepFrom := cfg.est.init, trace := [] }
 
 /-- `tree_map(np.ones_like, state)` -/
-def SolState.onesLike (_ : SolState α) : SolState α := ⟨1, 1, 1⟩
+def LSolState.onesLike (_ : LSolState α) : LSolState α := ⟨1, 1, 1⟩
 
 /-- `step_init_loopstate` -/
 def Cfg.stepInitLoopstate (cfg : Cfg α σ) (s0 : TimeStepState α σ) : RejState α σ :=
@@ -119,12 +119,12 @@ def Cfg.stepInitLoopstate (cfg : Cfg α σ) (s0 : TimeStepState α σ) : RejStat
     proposed := s0.stepFrom.onesLike, errorProposed := 1, trace := s0.trace }
 
 /-- the step size handed to `solver.step`: `np.minimum(dt, t1 - state.step_from.t)` if `clip_dt` -/
-def Cfg.clipDt (cfg : Cfg α σ) (t1 : α) (src : SolState α) (dtIn : α) : α :=
+def Cfg.clipDt (cfg : Cfg α σ) (t1 : α) (src : LSolState α) (dtIn : α) : α :=
   if cfg.clip then min dtIn (t1 - src.t) else dtIn
 
 /-- the protocol calls of one `step_attempt` from `step_from = src`, `error_step_from = es`,
 step-size proposal `dtIn`, controller state `cIn`: clip, `solver.step`, `estimate_error_norm`, `control.apply` -/
-def Cfg.mkAttempt (cfg : Cfg α σ) (t1 : α) (src : SolState α) (es : Nat) (dtIn : α) (cIn : σ) : AttemptRec α σ :=
+def Cfg.mkAttempt (cfg : Cfg α σ) (t1 : α) (src : LSolState α) (es : Nat) (dtIn : α) (cIn : σ) : AttemptRec α σ :=
   let dt := cfg.clipDt t1 src dtIn
   let proposed := cfg.solver.step src dt
   let ee := cfg.est.estimate es src proposed dt
@@ -157,39 +157,39 @@ def Cfg.step (cfg : Cfg α σ) (fuel : Nat) (s : TimeStepState α σ) (t1 : α) 
   | some r => some r.extract
 
 /-- `interp_skip` -/
-def Cfg.interpSkip (_cfg : Cfg α σ) (s : TimeStepState α σ) (t1 : α) : SolState α × TimeStepState α σ :=
+def Cfg.interpSkip (_cfg : Cfg α σ) (s : TimeStepState α σ) (t1 : α) : LSolState α × TimeStepState α σ :=
   (s.stepFrom, { s with trace := Event.interp 0 t1 s.interpFrom s.stepFrom :: s.trace })
 
 /-- `interp_beyond_t1` -/
-def Cfg.interpBeyond (cfg : Cfg α σ) (s : TimeStepState α σ) (t1 : α) : SolState α × TimeStepState α σ :=
+def Cfg.interpBeyond (cfg : Cfg α σ) (s : TimeStepState α σ) (t1 : α) : LSolState α × TimeStepState α σ :=
   let r := cfg.solver.interpFwd t1 s.interpFrom s.stepFrom
   (r.sol, { dt := s.dt, stepFrom := r.stepFrom, interpFrom := r.interpFrom, control := s.control,
             errorStepFrom := s.errorStepFrom,
             trace := Event.interp 1 t1 s.interpFrom s.stepFrom :: s.trace })
 
 /-- `interp_at_t1` -/
-def Cfg.interpAt (cfg : Cfg α σ) (s : TimeStepState α σ) (t1 : α) : SolState α × TimeStepState α σ :=
+def Cfg.interpAt (cfg : Cfg α σ) (s : TimeStepState α σ) (t1 : α) : LSolState α × TimeStepState α σ :=
   let r := cfg.solver.interpAtT1 t1 s.interpFrom s.stepFrom
   (r.sol, { dt := s.dt, stepFrom := r.stepFrom, interpFrom := r.interpFrom, control := s.control,
             errorStepFrom := s.errorStepFrom,
             trace := Event.interp 2 t1 s.interpFrom s.stepFrom :: s.trace })
 
 /-- the `switch` of `RejectionLoop.loop` on `branch_idx = where(is_before_t1, 0, where(is_after_t1, 1, 2))` -/
-def Cfg.interpolate (cfg : Cfg α σ) (s : TimeStepState α σ) (t1 eps : α) : SolState α × TimeStepState α σ :=
+def Cfg.interpolate (cfg : Cfg α σ) (s : TimeStepState α σ) (t1 eps : α) : LSolState α × TimeStepState α σ :=
   if s.stepFrom.t + eps < t1 then cfg.interpSkip s t1
   else if s.stepFrom.t > t1 + eps then cfg.interpBeyond s t1
   else cfg.interpAt s t1
 
 /-- `RejectionLoop.loop` -/
 def Cfg.loop (cfg : Cfg α σ) (fuel : Nat) (s0 : TimeStepState α σ) (t1 eps : α) :
-    Option (SolState α × TimeStepState α σ) :=
+    Option (LSolState α × TimeStepState α σ) :=
   match (if s0.stepFrom.t + eps < t1 then cfg.step fuel s0 t1 else some s0) with
   | none => none
   | some s => some (cfg.interpolate s t1 eps)
 
 /-- the `while_loop` of `advance` in `solve_adaptive_save_at`; `go` is `do_continue` -/
 def Cfg.advanceWhile (cfg : Cfg α σ) (fuelR : Nat) (tNext eps : α) :
-    Nat → Bool → SolState α → TimeStepState α σ → Option (SolState α × TimeStepState α σ)
+    Nat → Bool → LSolState α → TimeStepState α σ → Option (LSolState α × TimeStepState α σ)
   | _, false, sol, st => some (sol, st)
   | 0, true, _, _ => none
   | fuel + 1, true, _, st =>
@@ -198,15 +198,15 @@ def Cfg.advanceWhile (cfg : Cfg α σ) (fuelR : Nat) (tNext eps : α) :
     | some (sol', st') => cfg.advanceWhile fuelR tNext eps fuel (decide (st'.stepFrom.t + eps < tNext)) sol' st'
 
 /-- `advance` (always enters the loop once); the returned solution is also logged as an `output` event -/
-def Cfg.advance (cfg : Cfg α σ) (fuelA fuelR : Nat) (eps : α) (c : SolState α × TimeStepState α σ) (tNext : α) :
-    Option (SolState α × TimeStepState α σ) :=
+def Cfg.advance (cfg : Cfg α σ) (fuelA fuelR : Nat) (eps : α) (c : LSolState α × TimeStepState α σ) (tNext : α) :
+    Option (LSolState α × TimeStepState α σ) :=
   match cfg.advanceWhile fuelR tNext eps fuelA true c.1 c.2 with
   | none => none
   | some (sol, st) => some (sol, { st with trace := Event.output tNext sol :: st.trace })
 
 /-- `flow.scan(advance, init, xs)` -/
 def Cfg.scan (cfg : Cfg α σ) (fuelA fuelR : Nat) (eps : α) :
-    List α → SolState α × TimeStepState α σ → Option (List (SolState α) × (SolState α × TimeStepState α σ))
+    List α → LSolState α × TimeStepState α σ → Option (List (LSolState α) × (LSolState α × TimeStepState α σ))
   | [], c => some ([], c)
   | t :: ts, c =>
     match cfg.advance fuelA fuelR eps c t with
@@ -219,8 +219,8 @@ def Cfg.scan (cfg : Cfg α σ) (fuelA fuelR : Nat) (eps : α) :
 /-- result of a solve: `solution0`, the stacked `solution`, and the final `TimeStepState`
 (`solution1 = state.step_from`), i.e. the three arguments of `userfriendly_output` -/
 structure SolveResult (α σ : Type) where
-  solution0 : SolState α
-  solution : List (SolState α)
+  solution0 : LSolState α
+  solution : List (LSolState α)
   final : TimeStepState α σ
 
 /-- `solve_adaptive_save_at(...)(u, save_at, dt0, eps)`; `save_at[0]` of an empty array is an error -/
@@ -237,14 +237,14 @@ def Cfg.solveSaveAt (cfg : Cfg α σ) (fuelA fuelR : Nat) (u : Nat) (saveAt : Li
 
 /-- `solve_adaptive_terminal_values(...)(u, t0, t1, dt0, eps)`: `save_at = [t0, t1]`, last entry -/
 def Cfg.solveTerminal (cfg : Cfg α σ) (fuelA fuelR : Nat) (u : Nat) (t0 t1 dt0 eps : α) :
-    Option (SolState α × TimeStepState α σ) :=
+    Option (LSolState α × TimeStepState α σ) :=
   match cfg.solveSaveAt fuelA fuelR u [t0, t1] dt0 eps with
   | some { solution := [y], final := st, .. } => some (y, st)
   | _ => none
 
 /-- driving `RejectionLoop.loop` directly with an arbitrary list of targets (each solution is handed back) -/
 def Cfg.loopSeq (cfg : Cfg α σ) (fuelR : Nat) (eps : α) :
-    List α → TimeStepState α σ → Option (List (SolState α) × TimeStepState α σ)
+    List α → TimeStepState α σ → Option (List (LSolState α) × TimeStepState α σ)
   | [], st => some ([], st)
   | t1 :: ts, st =>
     match cfg.loop fuelR st t1 eps with
@@ -271,7 +271,7 @@ def everyStepCond (withEps : Bool) (t eps t1 : α) : Bool :=
 /-- the python loop of `test_util.solve_adaptive_save_every_step`:
 `while state.step_from.t < t1: solution, state = loop(state, t1); solutions.append(solution)` -/
 def Cfg.everyStepWhile (cfg : Cfg α σ) (withEps : Bool) (fuelR : Nat) (t1 eps : α) :
-    Nat → TimeStepState α σ → Option (List (SolState α) × TimeStepState α σ)
+    Nat → TimeStepState α σ → Option (List (LSolState α) × TimeStepState α σ)
   | 0, st => if everyStepCond withEps st.stepFrom.t eps t1 then none else some ([], st)
   | fuel + 1, st =>
     if everyStepCond withEps st.stepFrom.t eps t1 then
@@ -311,7 +311,7 @@ def accSum [LT α] [DecidableLT α] [One α] [Zero α] [Add α] : List (Event α
   | _ :: tl => accSum tl
 
 /-- the solutions handed back, oldest first -/
-def outputsOf : List (Event α σ) → List (α × SolState α)
+def outputsOf : List (Event α σ) → List (α × LSolState α)
   | [] => []
   | Event.output t1 s :: tl => outputsOf tl ++ [(t1, s)]
   | _ :: tl => outputsOf tl
